@@ -113,13 +113,14 @@ func verifAssume(bool) {}
 // C28 / C06: data shape (column schema) codec
 
 //@ func Serialize
-//@ trusted "reflect + unsafe (DataToByteSlice): appends the little-endian bytes of the datum; contract stated per dynamic kind for int8, uint8, int16, int32, int64, string and []byte only"
+//@ trusted "reflect + unsafe (DataToByteSlice): appends the little-endian bytes of the datum; contract stated per dynamic kind for int8, uint8, int16, int32, uint32, int64, string and []byte only"
 //@ modifies mem:uint8
 //@ ensures #ok: (kindis(datum, "int8") || kindis(datum, "uint8") || kindis(datum, "int16") || kindis(datum, "int32") || kindis(datum, "int64") || kindis(datum, "string") || kindis(datum, "bytes")) ==> result1 == nil
 //@ ensures #len1: (kindis(datum, "int8") || kindis(datum, "uint8")) ==> len(result0) == len(buffer) + 1
 //@ ensures #len2: kindis(datum, "int16") ==> len(result0) == len(buffer) + 2
 //@ ensures #len4: kindis(datum, "int32") ==> len(result0) == len(buffer) + 4
 //@ ensures #len8: kindis(datum, "int64") ==> len(result0) == len(buffer) + 8
+//@ ensures #lenU4: kindis(datum, "uint32") ==> (result1 == nil && len(result0) == len(buffer) + 4 && le32(result0, len(buffer)) == asint(datum))
 //@ ensures #lenS: kindis(datum, "string") ==> len(result0) == len(buffer) + len(asstr(datum))
 //@ ensures #lenB: kindis(datum, "bytes") ==> len(result0) == len(buffer) + len(asbytes(datum))
 //@ ensures #prefix: forallint(a, pattern(mem(result0)[a]), (base(result0) <= a && a < base(result0)+len(buffer)) ==> mem(result0)[a] == old(mem(buffer))[a - base(result0) + base(buffer)])
